@@ -112,6 +112,11 @@ class MP2SolverPySCF(ElectronicStructureSolver):
         one_rdm = self.mp2_fragment.make_rdm1()
         two_rdm = self.mp2_fragment.make_rdm2()
 
+        # A ROHF reference is treated as unrestricted by pyscf, which then returns the spin blocks: sum them, as for CCSD
+        if isinstance(one_rdm, tuple) and not self.uhf:
+            one_rdm = np.sum(one_rdm, axis=0)
+            two_rdm = np.sum((two_rdm[0], 2*two_rdm[1], two_rdm[2]), axis=0)
+
         return one_rdm, two_rdm
 
     def get_mp2_amplitudes(self):
